@@ -13,8 +13,6 @@ Record ifile := mkIFile { f_id : id; f_packs : list ipack; f_del : list ipack }.
 (* IndexPack::blob_type: type of the first blob, Data for an empty pack *)
 Definition blobs_type (bs : list blob) : btype := match bs with [] => Data | b :: _ => b_tpe b end.
 
-(* PackInfo *)
-Record pinfo := mkPI { pi_type : btype; pi_used_blobs : N; pi_unused_blobs : N; pi_used_size : N; pi_unused_size : N }.
 
 (* PrunePack, flat, tagged with the position of its index file; pp_info = Some after decide_packs
    looked at the pack; pp_cand = Some for entries pushed to repack_candidates *)
@@ -119,7 +117,6 @@ Definition from_pack (m : umap) (tpe : btype) (bs : list blob) : umap * pinfo :=
   end.
 
 (* ------------------------------------------------------------------ options *)
-Inductive limit := LUnlimited | LPercent (p : N) | LSize (s : N).
 Record sizer := mkSizer { sz_target : N; sz_min : N; sz_max : N (* 0 = no maximum *) }.
 Definition is_too_small (s : sizer) (size : N) : bool := size * 100 <? sz_target s * sz_min s.
 Definition is_too_large (s : sizer) (size : N) : bool :=
@@ -176,79 +173,78 @@ Definition size_remove (ps : list ppack) : N :=
   sumN (fun p => if todo_eqb (pp_todo p) MarkDelete then pi_unused_size (info_of p) else 0) ps.
 
 (* ------------------------------------------------------------------ decide_repack *)
-(* PackInfo::cmp: blob type (Tree < Data), then other.unused*self.used vs self.unused*other.used *)
+(* PackInfo::cmp (operands regenerated from the source): blob type first, then cmp_lhs vs cmp_rhs *)
 Definition pi_le (a b : pinfo) : bool :=
-  match pi_type a, pi_type b with
-  | Tree, Data => true
-  | Data, Tree => false
-  | _, _ => pi_unused_size b * pi_used_size a <=? pi_unused_size a * pi_used_size b
-  end.
+  if btype_rank (pi_type a) <? btype_rank (pi_type b) then true
+  else if btype_rank (pi_type b) <? btype_rank (pi_type a) then false
+  else cmp_lhs a b <=? cmp_rhs a b.
 Definition pi_lt (a b : pinfo) : bool := negb (pi_le b a).
 
 Fixpoint insert_sorted (x : ppack) (l : list ppack) : list ppack :=
   match l with
   | [] => [x]
-  | y :: tl => if pi_lt (info_of x) (info_of y) then x :: l else y :: insert_sorted x tl
+  | y :: tl => if pi_le (info_of x) (info_of y) then x :: l else y :: insert_sorted x tl
   end.
-(* a stable sort; the code uses sort_unstable_by_key (order of equal keys unspecified) *)
+(* a stable sort (equal keys keep the order in which the candidates were pushed); the code uses
+   sort_unstable_by_key (order of equal keys unspecified) *)
 Definition sort_cands (l : list ppack) : list ppack := fold_right insert_sorted [] l.
 
-Definition lim_ge (x : N) (l : option N) : bool := match l with None => false | Some v => v <=? x end.  (* x >= l *)
-Definition lim_lt (x : N) (l : option N) : bool := match l with None => true | Some v => x <? v end.   (* x < l *)
+Definition is_cand (p : ppack) : bool := match pp_cand p with Some _ => true | None => false end.
+Definition cand_reason (p : ppack) : reason := match pp_cand p with Some r => r | None => PartlyUsed end.
 
+(* loop state: repack_size per type, do_repack per type, repackrm accumulated by set_todo(Repack),
+   resize_packs per type, decisions taken inside the loop *)
 Record rstate := mkRS { rs_tree : N; rs_data : N; rs_do_tree : bool; rs_do_data : bool; rs_rm : N;
-                        rs_resize_tree : list id; rs_resize_data : list id; rs_dec : list (id * todo) }.
+                        rs_resize_tree : list ppack; rs_resize_data : list ppack; rs_dec : list (ppack * todo) }.
+Definition rs0 : rstate := mkRS 0 0 false false 0 [] [] [].
 
-Definition repack_step (o : popts) (max_repack max_unused : option N) (unused remove : N) (s : rstate) (p : ppack) : rstate :=
+Definition repack_step (no_resize : bool) (max_repack max_unused : option N) (unused remove : N) (s : rstate) (p : ppack) : rstate :=
   let pi := info_of p in
-  let r := match pp_cand p with Some r => r | None => PartlyUsed end in
-  let total := rs_tree s + rs_data s in
-  if lim_ge (total + pi_used_size pi) max_repack
-     || (lim_lt (unused - remove - rs_rm s) max_unused && reason_eqb r PartlyUsed && btype_eqb (pi_type pi) Data)
-     || (reason_eqb r SizeMismatch && o_no_resize o)
+  if keep_cond (rs_tree s + rs_data s) (pi_used_size pi) max_repack max_unused (unused - remove - rs_rm s)
+               (cand_reason p) (pi_type pi) no_resize
   then mkRS (rs_tree s) (rs_data s) (rs_do_tree s) (rs_do_data s) (rs_rm s) (rs_resize_tree s) (rs_resize_data s)
-            ((pp_id p, Keep) :: rs_dec s)
-  else if reason_eqb r SizeMismatch then
+            ((p, Keep) :: rs_dec s)
+  else if reason_eqb (cand_reason p) SizeMismatch then
     match pi_type pi with
     | Tree => mkRS (rs_tree s + pi_used_size pi) (rs_data s) (rs_do_tree s) (rs_do_data s) (rs_rm s)
-                   (pp_id p :: rs_resize_tree s) (rs_resize_data s) (rs_dec s)
+                   (p :: rs_resize_tree s) (rs_resize_data s) (rs_dec s)
     | Data => mkRS (rs_tree s) (rs_data s + pi_used_size pi) (rs_do_tree s) (rs_do_data s) (rs_rm s)
-                   (rs_resize_tree s) (pp_id p :: rs_resize_data s) (rs_dec s)
+                   (rs_resize_tree s) (p :: rs_resize_data s) (rs_dec s)
     end
   else
     match pi_type pi with
     | Tree => mkRS (rs_tree s + pi_used_size pi) (rs_data s) true (rs_do_data s) (rs_rm s + pi_unused_size pi)
-                   (rs_resize_tree s) (rs_resize_data s) ((pp_id p, Repack) :: rs_dec s)
+                   (rs_resize_tree s) (rs_resize_data s) ((p, Repack) :: rs_dec s)
     | Data => mkRS (rs_tree s) (rs_data s + pi_used_size pi) (rs_do_tree s) true (rs_rm s + pi_unused_size pi)
-                   (rs_resize_tree s) (rs_resize_data s) ((pp_id p, Repack) :: rs_dec s)
+                   (rs_resize_tree s) (rs_resize_data s) ((p, Repack) :: rs_dec s)
     end.
 
-Definition limit_unused (o : popts) (used : N) : option (option N) :=     (* outer None = arithmetic panic *)
-  if o_unc o || o_all o then Some (Some 0) else
-  match o_max_unused o with
-  | LUnlimited => Some None
-  | LSize s => Some (Some s)
-  | LPercent p => if p <? 100 then Some (Some (p * used / (100 - p))) else None
-  end.
-Definition limit_repack (o : popts) (total : N) : option N :=
-  match o_max_repack o with LUnlimited => None | LSize s => Some s | LPercent p => Some (p * total / 100) end.
+Definition max_unused_of (o : popts) (ps : list ppack) : option N :=
+  limit_unused_x (o_unc o || o_all o) (o_max_unused o) (size_used ps).
+Definition max_repack_of (o : popts) (ps : list ppack) : option N :=
+  limit_repack_x (o_max_repack o) (size_used ps + size_unused ps).
 
 Definition pack_size_target (s : sizer) : N := N.min (sz_target s) 4273995776.   (* grow factor 0; MAX_SIZE *)
 
-(* result: decision per candidate pack id; None = panic (max_unused percentage >= 100) *)
-Definition decide_repack (o : popts) (ps : list ppack) : option (list (id * todo)) :=
-  let used := size_used ps in let unused := size_unused ps in
-  match limit_unused o used with
-  | None => None
-  | Some max_unused =>
-      let max_repack := limit_repack o (used + unused) in
-      let cands := sort_cands (filter (fun p => match pp_cand p with Some _ => true | None => false end) ps) in
-      let s := fold_left (repack_step o max_repack max_unused unused (size_remove ps))
-                         cands (mkRS 0 0 false false 0 [] [] []) in
-      let tt := if rs_do_tree s || (pack_size_target (o_sz_tree o) <? rs_tree s) then Repack else Keep in
-      let td := if rs_do_data s || (pack_size_target (o_sz_data o) <? rs_data s) then Repack else Keep in
-      Some (rs_dec s ++ map (fun i => (i, tt)) (rs_resize_tree s) ++ map (fun i => (i, td)) (rs_resize_data s))
+Definition repack_loop (o : popts) (ps : list ppack) : rstate :=
+  fold_left (repack_step (o_no_resize o) (max_repack_of o ps) (max_unused_of o ps) (size_unused ps) (size_remove ps))
+            (sort_cands (filter is_cand ps)) rs0.
+
+Definition resize_todo (o : popts) (s : rstate) (t : btype) : todo :=
+  match t with
+  | Tree => if resize_repacks (rs_do_tree s) (rs_tree s) (pack_size_target (o_sz_tree o)) then Repack else Keep
+  | Data => if resize_repacks (rs_do_data s) (rs_data s) (pack_size_target (o_sz_data o)) then Repack else Keep
   end.
+
+(* every candidate with its decision *)
+Definition repack_decisions (o : popts) (ps : list ppack) : list (ppack * todo) :=
+  let s := repack_loop o ps in
+  rs_dec s ++ map (fun p => (p, resize_todo o s Tree)) (rs_resize_tree s)
+           ++ map (fun p => (p, resize_todo o s Data)) (rs_resize_data s).
+
+(* keyed by pack id, as apply_repack consumes it (pack ids are unique after PrunePlan::new) *)
+Definition decide_repack (o : popts) (ps : list ppack) : option (list (id * todo)) :=
+  Some (map (fun pt => (pp_id (fst pt), snd pt)) (repack_decisions o ps)).
 
 Fixpoint lookup {A} (k : id) (l : list (id * A)) : option A :=
   match l with [] => None | (k', v) :: tl => if k =? k' then Some v else lookup k tl end.
